@@ -641,6 +641,20 @@ fn file_hash<H: StreamHasher>(
     };
     let mut file = open(chunk.path, chunk.pos, chunk.len, access)?;
     let hash = stream_hash::<H>(&mut file, chunk.len, buf_len, progress)?.1;
+    // A file that has been appended to or truncated since it was scanned is not the file
+    // we were asked to hash: the chunk covers other data than intended.
+    if let Some(expected_len) = chunk.file_len {
+        let actual_len = FileLen(file.metadata()?.len());
+        if actual_len != expected_len {
+            return Err(io::Error::new(
+                io::ErrorKind::Other,
+                format!(
+                    "file length changed from {} to {} since the file was scanned",
+                    expected_len.0, actual_len.0
+                ),
+            ));
+        }
+    }
     evict_page_cache_if_low_mem(&mut file, chunk.len);
     Ok(hash)
 }
